@@ -38,17 +38,29 @@ func NewSimWriter(t *Task) *SimWriter { return &SimWriter{T: t, H: http.Header{}
 
 func (w *SimWriter) Header() http.Header { return w.H }
 
-func (w *SimWriter) WriteHeader(status int) {
-	if w.T != nil && !w.Quiet {
-		w.T.Y(SiteWHeader)
+// here is a schedule point of the RUNNING task. A writer reached from another request's goroutine
+// (a compressor shared between two responses does that) is recorded, never followed: the yield is
+// always the running task's own.
+func (w *SimWriter) here(site Site) {
+	t := Cur()
+	if t == nil {
+		return
 	}
+	if w.T != nil && t != w.T {
+		t.Ev("foreign-writer-use", site.String(), w.T.ID)
+	}
+	if w.T != nil && !w.Quiet {
+		t.Y(site)
+	}
+}
+
+func (w *SimWriter) WriteHeader(status int) {
+	w.here(SiteWHeader)
 	w.Statuses = append(w.Statuses, status)
 }
 
 func (w *SimWriter) Write(p []byte) (int, error) {
-	if w.T != nil && !w.Quiet {
-		w.T.Y(SiteWWrite)
-	}
+	w.here(SiteWWrite)
 	k := len(w.Chunks)
 	w.Chunks = append(w.Chunks, len(p))
 	n := len(p)
@@ -85,9 +97,7 @@ func (w *SimWriter) Status() int {
 type SimFlushWriter struct{ *SimWriter }
 
 func (w SimFlushWriter) Flush() {
-	if w.T != nil && !w.Quiet {
-		w.T.Y(SiteWFlush)
-	}
+	w.here(SiteWFlush)
 	w.Flushes++
 }
 
@@ -114,8 +124,11 @@ type SimBody struct {
 }
 
 func (b *SimBody) Read(p []byte) (int, error) {
-	if b.T != nil {
-		b.T.Y(SiteBRead)
+	if t := Cur(); t != nil && b.T != nil {
+		if t != b.T {
+			t.Ev("foreign-body-use", "", b.T.ID)
+		}
+		t.Y(SiteBRead)
 	}
 	b.Reads++
 	limit := len(b.Data)
